@@ -342,22 +342,61 @@ func apiVerb(api string) string {
 	return api
 }
 
-// whereClass reduces a park label to a schedule independent class.
+// whereClass reduces a park label to a schedule- and line-number-independent
+// class: instrumented sites look like "pkg/file.go:123(Func)" and are reduced to
+// "Func".
 func whereClass(label string) string {
 	switch {
 	case strings.HasPrefix(label, "net.write"):
 		return "net.write"
 	case strings.HasPrefix(label, "net.read"):
 		return "net.read"
-	case label == "mutex" || label == "mutex-retry":
+	case strings.HasPrefix(label, "net.wake"):
+		return "net"
+	case strings.HasPrefix(label, "listener."):
+		return "listener.accept"
+	case label == "mutex" || label == "mutex-retry" || label == "lock" || label == "unlock" || label == "trylock":
 		return "lock"
+	case strings.HasPrefix(label, "cond:"):
+		return label
 	case label == "cond" || label == "cond-woken":
 		return "cond"
 	}
-	if i := strings.LastIndexByte(label, ':'); i > 0 && strings.Contains(label, ".go") {
-		return "chan@" + label
+	if i := strings.IndexByte(label, '('); i > 0 && strings.HasSuffix(label, ")") {
+		return label[i+1 : len(label)-1]
 	}
 	return label
+}
+
+// roleOfTask maps a task name to a stable role name, e.g.
+// "cli-init/manageReader#0" -> "cli.manageReader", "srv/track#1/manageStreams#0"
+// -> "srv.manageStreams".
+func (x *e1) roleOfTask(name string) string {
+	side := "srv"
+	if strings.HasPrefix(name, "cli") {
+		side = "cli"
+	}
+	last := name
+	if i := strings.LastIndexByte(name, '/'); i >= 0 {
+		last = name[i+1:]
+	}
+	base := last
+	if i := strings.IndexByte(base, '#'); i >= 0 {
+		base = base[:i]
+	}
+	switch {
+	case last == "track#0":
+		return "srv.ctxwatch"
+	case base == "track":
+		return "srv.serveone"
+	case name == "srv" && x.prog.Cfg.Serve:
+		return "srv.accept"
+	case name == "srv":
+		return "srv.serveone"
+	case strings.HasPrefix(name, "cli") && !strings.Contains(name, "/"):
+		return name
+	}
+	return side + "." + base
 }
 
 func (x *e1) libCensus() []string {
@@ -369,7 +408,7 @@ func (x *e1) libCensus() []string {
 		if t.API != "" {
 			continue
 		}
-		out = append(out, t.Name+"@"+whereClass(t.Label))
+		out = append(out, x.roleOfTask(t.Name)+"@"+whereClass(t.Label))
 	}
 	sort.Strings(out)
 	return out
